@@ -1,0 +1,8 @@
+//go:build !verif
+
+// Package vhook provides named hook points for the verification harness. Without the build tag
+// "verif" every hook point is an empty function that the compiler inlines away.
+package vhook
+
+// At is a no-op in regular builds.
+func At(string, ...any) {}
